@@ -468,6 +468,8 @@ class Engine:
     def _value(self, model, kind, t):
         if kind == "real":
             if self.mode == "fp":
+                if z3.is_true(model.eval(z3.fpIsNaN(t), model_completion=True)):
+                    return {"float": "nan"}   # the bit pattern of a NaN is unspecified under fp.to_ieee_bv
                 bvv = model.eval(z3.fpToIEEEBV(t), model_completion=True)
                 bits = bvv.as_long()
                 f = struct.unpack("<d", struct.pack("<Q", bits))[0]
@@ -621,7 +623,11 @@ class Engine:
             if outcome is None:
                 work.extend(self.pending)
                 continue
-            if self._signal is not None and (outcome[0] in ("ok", "exc")):
+            if isinstance(self._signal, PathAbort) and (outcome[0] in ("ok", "exc")):
+                # a bound of the exploration was hit inside C code that turned the signal into an ordinary exception
+                # (itertools.islice, range, ...): the path is outside the stated bound, exactly as if the signal had propagated
+                outcome = ("abort", self._signal)
+            elif self._signal is not None and (outcome[0] in ("ok", "exc")):
                 outcome = ("unsupported", Unsupported(f"engine signal swallowed by the code under test: {self._signal!r}"))
             if self.lazy and outcome[0] in ("ok", "exc", "nonfinite"):
                 r = self.check()
